@@ -124,7 +124,7 @@ PROPS['C11'] = dict(
     level='other',
     design_ref='DESIGN.md §4 C11',
     technique='deductive (kernel): VCs from the real AST of set_mode / sanitize_permissions (ghost effect trace: which of chown / chmod / default-permission masking happens, in which order), Installer.should_install and get_destdir_path; resulting mode bits on real files, filter truth table and DESTDIR re-rooting bounded; generated projects installed by the real `meson install --no-rebuild --destdir` and compared with the tree their install rules prescribe (reinstall, uninstall by the log, --dry-run, --tags, --skip-subprojects) bounded',
-    level_text='Proved for all modes, umasks, tags and paths: permissions are the declared install_mode or else the defaults masked by install_umask in every case, ownership is set before permissions, "preserve" changes nothing; a data item is skipped iff its subproject is skipped or tags were requested and its tag is not among them; absolute destinations are re-rooted under DESTDIR, relative ones under the prefix. install_emptydir (unrolled for 0, 1 and 2 entries of arbitrary content): every selected entry gets its destination computed from (destdir, prefix, path), the directory created with exist_ok and then set_mode(destination, its install_mode, install_umask) — also when the directory exists already.',
+    level_text='Proved for all modes, umasks, tags and paths: permissions are the declared install_mode or else the defaults masked by install_umask in every case, ownership is set before permissions, "preserve" changes nothing; a data item is skipped iff its subproject is skipped or tags were requested and its tag is not among them; absolute destinations are re-rooted under DESTDIR, relative ones under the prefix. install_emptydir (unrolled for 0, 1 and 2 entries of arbitrary content): every selected entry gets its destination computed from (destdir, prefix, path), the directory created with exist_ok and then set_mode(destination, its install_mode, install_umask) — also when the directory exists already. install_data / install_man / install_headers (unrolled for 1 and 2 entries): each selected entry is copied to its destination and then gets set_mode(destination, its install_mode, install_umask), also when the copy had nothing to do; something counts as installed iff a copy says so. install_symlinks (one entry): the link is made under its re-rooted name with exactly the declared target text; install_subdirs (one entry): the tree is copied to the re-rooted destination with its own excludes, mode and follow_symlinks.',
     level_note='Assumed: set_chmod / set_chown / is_executable / path_has_root / destdir_join as effects or uninterpreted functions (pathlib and the OS are outside the contracts; checked bounded on POSIX paths and real files); bit operations uninterpreted. NOT decided deductively (bounded only, on real installations of generated projects without built targets): confinement of every write, exactness of the installed tree, install log vs uninstall, dry-run, idempotence (effects of do_copyfile / do_copydir / shutil on a real file system).',
     explanation='kernel: permission decision, tag/subproject filter and DESTDIR branch proved; whole-tree clauses not decided',
     not_decided=['only beneath DESTDIR for every file operation', 'exactly the specified files/dirs/symlinks', 'uninstall removes exactly the logged paths', '--dry-run writes nothing', 'installing twice equals installing once'],
